@@ -262,4 +262,52 @@ theorem scanFlowScalar_ok_has_quote (single : Bool) (u : Sc) (hk : u.inp.kind = 
   | err e => rw [hl] at h; simp at h
   | panic p => rw [hl] at h; simp at h
 
+-- escapes ----------------------------------------------------------------------------------------------------------
+
+/-- **A hexadecimal escape with a character that is not a hexadecimal digit among its digits is rejected**
+    (string input; `n` digits expected, `k` still to read, the offending character at position `n - k + j`) -/
+theorem hexLoop_rejects (sm : Marker) (n : Nat) : ∀ (k v : Nat) (s : Sc), s.inp.kind = .str → k ≤ n →
+    (∃ j, j < k ∧ isHex (s.inp.iter.getD (n - k + j) '\x00') = false) →
+    ∃ e, hexLoop sm n k v s = .err e := by
+  intro k
+  induction k with
+  | zero => intro v s _ _ ⟨j, hj, _⟩; omega
+  | succ k ih =>
+    intro v s hk hkn ⟨j, hj, hbad⟩
+    unfold Sc.hexLoop
+    have hp : peekNth (n - (k + 1)) s = .ok (s.inp.iter.getD (n - (k + 1)) '\x00', s) := by
+      simp [Sc.peekNth, Sc.liftI, In.peekNth, hk]
+    rw [bind_ok hp]
+    cases j with
+    | zero =>
+      simp only [Nat.add_zero] at hbad
+      simp only [hbad, Bool.not_false, ↓reduceIte]
+      exact ⟨_, rfl⟩
+    | succ j =>
+      by_cases hh : isHex (s.inp.iter.getD (n - (k + 1)) '\x00') = true
+      · simp only [hh, Bool.not_true, Bool.false_eq_true, ↓reduceIte]
+        apply ih _ s hk (by omega)
+        refine ⟨j, by omega, ?_⟩
+        rw [show n - k + j = n - (k + 1) + (j + 1) by omega]
+        exact hbad
+      · have : isHex (s.inp.iter.getD (n - (k + 1)) '\x00') = false := by simpa using hh
+        simp only [this, Bool.not_false, ↓reduceIte]
+        exact ⟨_, rfl⟩
+
+/-- **An unknown escape character is rejected**: a backslash followed by a character that is neither one of the
+    18 named escapes nor `x`, `u`, `U` (string input) -/
+theorem resolveEscape_unknown (sm : Marker) (s : Sc) (hk : s.inp.kind = .str) (e : Char)
+    (he : s.inp.iter.getD 1 '\x00' = e) (hn : namedEscape e = none) (hx : e ≠ 'x') (hu : e ≠ 'u') (hU : e ≠ 'U') :
+    ∃ err, resolveEscape sm s = .err err := by
+  unfold Sc.resolveEscape
+  have hp : peekNth 1 s = .ok (e, s) := by
+    rw [← he]; simp [Sc.peekNth, Sc.liftI, In.peekNth, hk]
+  rw [bind_ok hp]
+  simp only [hn]
+  have h1 : (e == 'x') = false := by simpa using hx
+  have h2 : (e == 'u') = false := by simpa using hu
+  have h3 : (e == 'U') = false := by simpa using hU
+  simp only [h1, h2, h3, Bool.false_eq_true, ↓reduceIte, beq_self_eq_true]
+  exact ⟨_, rfl⟩
+
 end SaphyrModel.Sc
